@@ -92,7 +92,8 @@ func smChild(flagTok, actTok string) {
 				}
 				time.Sleep(time.Millisecond)
 			}
-			time.Sleep(3 * time.Millisecond)
+			// pkg/server/keeper installs its signal handlers from goroutines started in init(): give them time to run
+			time.Sleep(30 * time.Millisecond)
 			switch a {
 			case "term":
 				syscall.Kill(os.Getpid(), syscall.SIGTERM)
@@ -124,15 +125,26 @@ func smChild(flagTok, actTok string) {
 }
 
 func runSM(c *hx.Ctx, flagTok, actTok string) {
-	cmd := exec.Command(os.Args[0], "C11", "smchild", flagTok, actTok)
-	out, err := cmd.Output()
+	var out []byte
 	code := 0
-	if err != nil {
-		if ee, ok := err.(*exec.ExitError); ok {
-			code = ee.ExitCode()
-		} else {
-			panic(err)
+	for attempt := 0; attempt < 4; attempt++ {
+		cmd := exec.Command(os.Args[0], "C11", "smchild", flagTok, actTok)
+		var err error
+		out, err = cmd.Output()
+		code = 0
+		if err != nil {
+			if ee, ok := err.(*exec.ExitError); ok {
+				code = ee.ExitCode()
+			} else {
+				panic(err)
+			}
 		}
+		if code != -1 {
+			break
+		}
+		// killed by the signal's default action: keeper's handler goroutine had not called signal.Notify yet
+		// (not the code under test) - run the script again
+		c.Count("sm.retry-signal-before-notify")
 	}
 	var states, calls []string
 	for _, l := range strings.Split(string(out), "\n") {
